@@ -8,7 +8,7 @@ open Outcome
 /-! ### InnerClasses -/
 def innerElem (c s : List Inner) (i : JStr) : Outcome Inner :=
   match get i (collect (fun x : Inner => x.name) c), get i (collect (fun x : Inner => x.name) s) with
-  | some ec, some es => if ec == es then ok ec else Outcome.panic "inner_classes"
+  | some ec, some es => if ec == es then ok ec else err
   | some ec, none => ok ec
   | none, some es => ok es
   | none, none => Outcome.panic "unreachable"
